@@ -36,6 +36,12 @@ def buffiter(obj, chunk=10, max_chunk=1000, factor=2):
     if factor < 1:
         raise ValueError("factor must be >= 1, got %r" % (factor,))
     it = iter(obj)
+    if not hasattr(it, "____conn__"):
+        # not a remote iterator (e.g. the target is iterable only through __getitem__, so python built a
+        # local sequence iterator around the proxy): nothing to buffer, iterate it as it is
+        for elem in it:
+            yield elem
+        return
     count = chunk
     while True:
         items = syncreq(it, HANDLE_BUFFITER, count)
